@@ -52,6 +52,42 @@ std::string scratch_dir() {
   return g_scratch;
 }
 
+// ---------------------------------------------------------------- watchdog ---
+// SIGALRM every 5 s: if the simulator's event sequence number has not moved
+// for WD_STALL seconds (a serial loop without scheduling points, or a blocked
+// process) or the run exceeds the engine's hard limit, die by SIGALRM; the
+// parent classifies that as class "hang".
+static volatile uint64_t g_wd_last_seq = 0;
+static volatile int g_wd_stalled = 0, g_wd_total = 0, g_wd_limit = 0;
+static const int WD_TICK = 5, WD_STALL = 30;
+static void wd_handler(int) {
+  const uint64_t seq = now_seq();
+  g_wd_total += WD_TICK;
+  if (seq == g_wd_last_seq)
+    g_wd_stalled += WD_TICK;
+  else
+    g_wd_stalled = 0;
+  g_wd_last_seq = seq;
+  if (g_wd_stalled >= WD_STALL || g_wd_total >= g_wd_limit) {
+    signal(SIGALRM, SIG_DFL);
+    raise(SIGALRM);
+    return;
+  }
+  alarm(WD_TICK);
+}
+static void wd_start(int limit_seconds) {
+  g_wd_last_seq = now_seq();
+  g_wd_stalled = 0;
+  g_wd_total = 0;
+  g_wd_limit = limit_seconds;
+  signal(SIGALRM, wd_handler);
+  alarm(WD_TICK);
+}
+static void wd_stop() {
+  alarm(0);
+  signal(SIGALRM, SIG_DFL);
+}
+
 // -------------------------------------------------------- outcome (de)ser ---
 static Json outcome_to_json(const Outcome &o, bool with_exec) {
   Json j = Json::object();
@@ -204,9 +240,9 @@ static Outcome run_in_child(Engine &engine, const Json &cse, int timeout) {
     }
     g_scratch.clear();
     engine.setup();
-    alarm((unsigned)timeout);
+    wd_start(timeout);
     Outcome o = engine.execute(cse);
-    alarm(0);
+    wd_stop();
     std::string s = outcome_to_json(o, true).dump();
     size_t off = 0;
     while (off < s.size()) {
@@ -299,9 +335,9 @@ static void worker_loop(Engine &engine, const Batch &b, int w, int W,
     Json cse = make_case(engine, b, i);
     fprintf(out, "S %llu\n", (unsigned long long)i);
     fflush(out);
-    alarm((unsigned)engine.watchdog_seconds());
+    wd_start(engine.watchdog_seconds());
     Outcome o = engine.execute(cse);
-    alarm(0);
+    wd_stop();
     fprintf(out, "R %llu %s\n", (unsigned long long)i,
             outcome_to_json(o, false).dump().c_str());
     fflush(out);
@@ -625,6 +661,7 @@ int check_main(int argc, char **argv, Engine &engine) {
   std::map< std::string, uint64_t > note_counts;
   std::vector< Violation > violations;
   uint64_t max_index_done = 0;
+  long long stragglers = 0;
 
   auto handle_line = [&](Worker &wk, int w, const std::string &line) {
     if (line.empty())
@@ -696,6 +733,26 @@ int check_main(int argc, char **argv, Engine &engine) {
     int pr = poll(pfds.data(), (nfds_t)pfds.size(), 1000);
     if (pr < 0 && errno != EINTR)
       break;
+    if (wall_now() > b.deadline + 45.) {
+      // stragglers (runs that are cut short only by their watchdog): the
+      // batch is over, they are not counted
+      for (int w = 0; w < W; ++w)
+        if (workers[w].fd >= 0) {
+          kill(workers[w].pid, SIGKILL);
+          int st = 0;
+          waitpid(workers[w].pid, &st, 0);
+          close(workers[w].fd);
+          workers[w].fd = -1;
+          const char *t = getenv("TMPDIR");
+          std::string base = t ? t : "/tmp";
+          char sb[256];
+          snprintf(sb, sizeof sb, "%s/cmi-verif-%d", base.c_str(),
+                   (int)workers[w].pid);
+          rm_rf(sb);
+          ++stragglers;
+        }
+      break;
+    }
     for (size_t k = 0; k < pfds.size(); ++k) {
       if (!(pfds[k].revents & (POLLIN | POLLHUP | POLLERR)))
         continue;
@@ -774,14 +831,43 @@ int check_main(int argc, char **argv, Engine &engine) {
   std::set< std::string > known_printed;
   uint64_t unlisted = 0;
   const int timeout = engine.watchdog_seconds();
-  const double min_time = tier == "quick" ? 60. : 300.;
+  const double min_time = tier == "quick" ? 30. : 300.;
   int processed = 0;
   for (auto &g : groups)
     printf("candidate: class=%s runs=%llu first_index=%llu: %s\n",
            g.second.vclass.c_str(), (unsigned long long)group_counts[g.first],
            (unsigned long long)g.second.index, g.second.message.c_str());
+  // order: logic violations first (cheap to re-run), crashes, then the
+  // classes that cost a time-out per execution
+  std::vector< std::pair< int, std::string > > order;
   for (auto &g : groups) {
+    const std::string &cl = g.second.vclass;
+    int rank = 0;
+    if (family(cl) == "crash-family")
+      rank = 1;
+    if (cl == "nontermination")
+      rank = 2;
+    if (cl == "hang")
+      rank = 3;
+    order.push_back(std::make_pair(rank, g.first));
+  }
+  std::sort(order.begin(), order.end());
+  const int max_processed = tier == "quick" ? 1 : 4;
+  const double t_violations_end =
+      wall_now() + (tier == "quick" ? 240. : 1200.);
+  for (auto &og : order) {
+    auto git = groups.find(og.second);
+    auto &g = *git;
     const Violation &v = g.second;
+    if (exit_code == 1 &&
+        (processed >= max_processed || wall_now() > t_violations_end)) {
+      printf("further candidate (not re-run): class=%s runs=%llu "
+             "first_index=%llu: %s\n",
+             v.vclass.c_str(), (unsigned long long)group_counts[g.first],
+             (unsigned long long)v.index, v.message.c_str());
+      ++unlisted;
+      continue;
+    }
     Json cse = make_case(engine, b, v.index);
     // gate 1: two fresh executions must agree with the batch run
     Outcome o1 = run_in_child(engine, cse, timeout);
@@ -820,12 +906,6 @@ int check_main(int argc, char **argv, Engine &engine) {
       continue;
     }
     ++unlisted;
-    if (processed >= 4) {
-      printf("additional violation group not minimised: index=%llu class=%s "
-             "%s\n",
-             (unsigned long long)v.index, v.vclass.c_str(), v.message.c_str());
-      continue;
-    }
     ++processed;
     uint64_t attempts = 0;
     Outcome last = o1;
@@ -905,6 +985,7 @@ int check_main(int argc, char **argv, Engine &engine) {
       (long long)(t_batch > 0 ? (double)evaluations * 3600. / t_batch : 0);
   cov["batch_wall_s"] = t_batch;
   cov["workers"] = W;
+  cov["straggler_runs_killed_after_deadline"] = stragglers;
   Json st = Json::object();
   for (auto &kv : stats_sum)
     st[kv.first] = kv.second;
